@@ -78,6 +78,8 @@ func c02Context() map[string]stick.Value {
 		"m": map[string]stick.Value{"a": 1, "k": "v"}, "mi": map[int]string{1: "one"}, "em": map[string]stick.Value{},
 		"obj": th, "pt": &th, "np": np, "nan": math.NaN(), "inf": math.Inf(1), "big": int64(math.MaxInt64), "fnv": func() {},
 		"things": []gen.Thing{th}, "nested": map[string]stick.Value{"in": map[string]stick.Value{"k": []int{1}}},
+		"ks": map[gen.KeyStr]int{"a": 1}, "ki": map[gen.KeyInt]string{1: "one"}, "dn": gen.KeyInt(2), "ds": gen.KeyStr("a"), "db": gen.NamedBool(true), "nsl": gen.NamedSlice{5, 6},
+		"ov": gen.OuterVal{Inner: gen.Inner{Name: "in", N: 1}, Extra: 2}, "op": gen.OuterPtr{Inner: &gen.Inner{Name: "ep", N: 5}, Extra: 6}, "onil": gen.OuterPtr{Extra: 7}, "oi": gen.OuterIface{Any: []int{1}},
 		"str": gen.ValStringer{S: "st"}, "safe": stick.NewSafeValue("<b>", "html"), "tm": time.Date(2021, 3, 4, 5, 6, 7, 0, time.UTC), "nilm": map[string]stick.Value(nil),
 	}
 }
@@ -103,7 +105,7 @@ func c02Vars() []string {
 
 var c02vars = c02Vars()
 
-var c02IterVars = []string{"arr", "parr", "earr", "vals", "m", "mi", "em", "things", "nul"}
+var c02IterVars = []string{"arr", "parr", "earr", "vals", "m", "mi", "em", "things", "nul", "ks", "ki", "nsl"}
 
 func (p *c02) program(i int) (map[string]*gen.Template, bool) {
 	g := &gen.ProgGen{R: gen.Rng(p.seed, "c02", i), Hostile: i%3 != 2, Vars: c02vars, IterVars: c02IterVars}
